@@ -393,6 +393,17 @@ int main()
       g_progs.emplace_back(std::stoi(w[1]), std::move(ops));
       return "ok";
     }
+    if ((w[0] == "incmany" || w[0] == "decmany") && w.size() == 3) {
+      int k = std::stoi(w[1]);
+      unsigned long long n = std::stoull(w[2]);
+      if (k < 0 || k >= g->nobj || !g_live[k]) return "bad-op";
+      if (w[0] == "incmany") { for (unsigned long long i = 0; i < n; ++i) g->objs[k]->refInc(); }
+      else {
+        if ((unsigned long long)g->objs[k]->useCount() <= n && g->objs[k]->useCount() > 0) return "bad-op";
+        for (unsigned long long i = 0; i < n; ++i) g->objs[k]->refDec();
+      }
+      return showState();
+    }
     if (w[0] == "watchall" && w.size() == 2) { g_watch = w[1] == "on"; return showState(); }
     if (w[0] == "mtrun") { g_watch = false; return runThreads(); }
     if (w[0] == "acq_race" && w.size() == 3) {
